@@ -71,6 +71,7 @@ func typecheckFunctionsAndProcesses(processes []*Process, assumedFreeNames []Nam
 	}
 
 	globalEnv.log(LOGRULEDETAILS, "Process declarations typecheck ok")
+	vhTcDone(globalEnv)
 }
 
 // Sets a common type to all provider names
